@@ -29,6 +29,7 @@ type C09Op struct {
 	Off   int    `json:"off,omitempty"`   // roots: range start (mod size)
 	Len   int    `json:"len,omitempty"`   // roots: range length (mod remaining, +1)
 	Fault *Fault `json:"fault,omitempty"` // fault: what to do
+	Old   bool   `json:"old,omitempty"`   // address contract C itself even if it has been renewed
 }
 
 // Fault describes a deviating exchange: the RPC kind, where the renter stops
@@ -353,6 +354,9 @@ func resolveIdx(idx []int, oob, size int) []uint64 {
 
 func (x *c09) step(op C09Op) error {
 	m := x.C[mod(op.C, len(x.C))]
+	if op.Old && m.Renewed {
+		return x.stale(m, op)
+	}
 	// a renewed contract is final; operate on its successor
 	for m.Renewed {
 		found := false
@@ -398,6 +402,51 @@ func (x *c09) step(op C09Op) error {
 		return x.fault(m, *op.Fault, op)
 	}
 	return fmt.Errorf("harness: unknown op %q", op.Op)
+}
+
+// stale issues an honest append / free / root listing, built on the last
+// revision, against a contract that has been renewed or refreshed: the host
+// must refuse it, sign and persist nothing and leave the snapshot unchanged.
+func (x *c09) stale(m *mcontract, op C09Op) error {
+	before := x.snapshot()
+	logFrom := x.H.Log.Len()
+	var res rhpx.Result
+	what := op.Op + " on a renewed contract"
+	switch op.Op {
+	case "append":
+		var roots []types.Hash256
+		for _, k := range op.Roots {
+			roots = append(roots, rootOf(k))
+		}
+		if len(roots) == 0 {
+			roots = []types.Hash256{rootOf(0)}
+		}
+		res = x.R.Append(m.view(), x.Prices, roots, rhpx.Script{}, nil).Result
+	case "free", "rawfree":
+		if len(m.Roots) == 0 {
+			return nil
+		}
+		res = x.R.Free(m.view(), x.Prices, normalise(resolveIdx(op.Idx, 0, len(m.Roots))), rhpx.Script{}, nil).Result
+	case "roots":
+		if len(m.Roots) == 0 {
+			return nil
+		}
+		res = x.R.SectorRoots(m.view(), x.Prices, 0, uint64(len(m.Roots)), rhpx.Script{}, nil).Result
+	default:
+		return nil
+	}
+	if res.Infra != nil {
+		x.cs.Inconclusive("watchdog")
+		return errInconclusive
+	}
+	x.cs.Class("stale:" + op.Op)
+	if res.Done {
+		return fmt.Errorf("%s: the host completed it although the contract is no longer revisable", what)
+	}
+	if err := quietLog(x.H.Log.Since(logFrom)); err != nil {
+		return fmt.Errorf("%s (%v): %w", what, res, err)
+	}
+	return x.check(what+" -> "+res.String(), &before)
 }
 
 func runC09(c C09Case, cs *kit.CaseStats) error {
@@ -489,7 +538,7 @@ func genC09(t *rapid.T) C09Case {
 	}
 	n := rapid.IntRange(1, maxOps).Draw(t, "nops")
 	for i := 0; i < n; i++ {
-		op := C09Op{C: rapid.IntRange(0, nc-1).Draw(t, "c")}
+		op := C09Op{C: rapid.IntRange(0, nc-1).Draw(t, "c"), Old: rapid.IntRange(0, 4).Draw(t, "old") == 0}
 		switch k := rapid.IntRange(0, 14).Draw(t, "op"); {
 		case k < 4:
 			op.Op = "append"
